@@ -242,42 +242,54 @@ func firstLine(s string) string {
 	return s
 }
 
+func emptyRet(kind string, phase int) EvRet {
+	return EvRet{Ev: "ret", Kind: kind, Missing: []Label{}, EInputs: []Label{}, EConvs: []int{}, Outs: []int{}, Phase: phase}
+}
+
 // RunOnce executes the scenario once against the real library and returns the
 // recorded events (reset … ret).  Panics are recovered into kind "panic".
 func RunOnce(s Scenario, rep int, r *rand.Rand) (events []interface{}) {
 	s.Normalize()
-	var b *Built
 	reset := EvReset{Ev: "reset", Sid: s.Sid, Rep: rep, Scn: s}
-	phase := 1
 	defer func() {
-		if p := recover(); p != nil {
-			var evs []interface{}
-			if b != nil {
-				evs = b.Env.Events
-				if b.Env.Phase > phase {
-					phase = b.Env.Phase
-				}
-			}
-			ret := EvRet{Ev: "ret", Kind: "panic", Detail: firstLine(fmt.Sprint(p)), Missing: []Label{}, EInputs: []Label{}, EConvs: []int{}, Outs: []int{}, Phase: phase}
-			events = append(append([]interface{}{reset}, evs...), ret)
+		if p := recover(); p != nil { // a panic while building the functions (NewFunc, BuildFunc, NewValueSet)
+			ret := emptyRet("panic", s.Phase0)
+			ret.Detail = firstLine(fmt.Sprint(p))
+			events = []interface{}{reset, ret}
 		}
 	}()
-	var err error
-	b, err = Instantiate(s, r)
+	b, err := Instantiate(s, r)
 	if err != nil {
-		ret := EvRet{Ev: "ret", Kind: "builderr", Detail: firstLine(err.Error()), Missing: []Label{}, EInputs: []Label{}, EConvs: []int{}, Outs: []int{}, Phase: 1}
+		ret := emptyRet("builderr", s.Phase0)
+		ret.Detail = firstLine(err.Error())
 		return []interface{}{reset, ret}
 	}
+	b.Execute(r)
+	return append([]interface{}{reset}, b.Env.Events...)
+}
+
+// Execute performs the operation of b.S (call / convert / redefine + follow-up call) on the built
+// objects and appends the observations to the environment.  A panic becomes a ret event.
+func (b *Built) Execute(r *rand.Rand) {
+	s := b.S
 	env := b.Env
+	env.Phase = s.Phase0
+	defer func() {
+		if p := recover(); p != nil {
+			ret := emptyRet("panic", env.Phase)
+			ret.Detail = firstLine(fmt.Sprint(p))
+			env.emit(ret)
+		}
+	}()
 	args := b.Args(r)
 	switch s.Mode {
 	case "call":
 		res := b.Target.Call(args...)
-		env.emit(b.classify(res, 1))
+		env.emit(b.classify(res, s.Phase0))
 	case "convert":
 		tt := TypeOf(s.Target.In[0].Type)
 		v, err := am.Convert(tt, args...)
-		ret := EvRet{Ev: "ret", Missing: []Label{}, EInputs: []Label{}, EConvs: []int{}, Outs: []int{}, Phase: 1}
+		ret := emptyRet("", s.Phase0)
 		ret.ValNil = v == nil
 		if err == nil {
 			ret.Kind = "ok"
@@ -315,15 +327,20 @@ func RunOnce(s Scenario, rep int, r *rand.Rand) (events []interface{}) {
 				gl.Type = c // the API can only take the dynamic type of a supplied value
 			}
 			rd.Given = append(rd.Given, gl)
+			if s.NoFollowUp {
+				continue // no value is handed over, so no token is consumed
+			}
 			t := env.tok()
 			rd.Toks = append(rd.Toks, t)
 			call = append(call, apiArg(l, MkValue(l.Type, t).Interface(), r.Intn(6)))
 		}
 		env.emit(rd)
-		env.Phase = 2
-		phase = 2
+		if s.NoFollowUp {
+			break
+		}
+		env.Phase = s.Phase0 + 1
 		res := nf.Call(call...)
-		ret := EvRet{Ev: "ret", Missing: []Label{}, EInputs: []Label{}, EConvs: []int{}, Outs: []int{}, Phase: 2}
+		ret := emptyRet("", s.Phase0+1)
 		ret.Len = res.Len()
 		if e := res.Err(); e != nil {
 			b.classifyErr(e, &ret)
@@ -335,5 +352,88 @@ func RunOnce(s Scenario, rep int, r *rand.Rand) (events []interface{}) {
 	default:
 		panic("harness: unknown mode " + s.Mode)
 	}
-	return append([]interface{}{reset}, env.Events...)
+}
+
+// ---------------------------------------------------------------- histories on shared objects
+
+// Step is one operation of a history.
+type Step struct {
+	Op        string   `json:"op"`     // call | redefine | convert
+	Target    int      `json:"target"` // index into the pool's targets (1-based)
+	Inputs    []int    `json:"inputs"` // indices into the pool's supplied values (1-based)
+	HasFilter bool     `json:"hasFilter"`
+	FilterIn  []string `json:"filterIn"`
+	FilterOut string   `json:"filterOut"`
+	FollowUp  bool     `json:"followUp"`
+}
+
+// History is a sequence of operations on one pool of shared functions and values.
+type History struct {
+	Hid     int        `json:"hid"`
+	Targets []FuncSpec `json:"targets"`
+	Inputs  []Label    `json:"inputs"`
+	Convs   []FuncSpec `json:"convs"`
+	Steps   []Step     `json:"steps"`
+	Family  string     `json:"family"`
+	TwinOf  int        `json:"twinOf"` // hid of the history this one repeats without its Redefine steps (0 = none)
+}
+
+// RunHistory executes a history on ONE set of real objects.  Every step is reported like a
+// scenario (reset event with carry = true after the first), phases 2k-1 / 2k for step k.
+func RunHistory(h History, r *rand.Rand) (events []interface{}) {
+	env := NewEnv(len(h.Convs))
+	vals := make([]interface{}, len(h.Inputs))
+	toks := make([]int, len(h.Inputs))
+	for j, l := range h.Inputs {
+		toks[j] = env.tok()
+		vals[j] = MkValue(l.Type, toks[j]).Interface()
+	}
+	fail := func(err error) []interface{} {
+		ret := emptyRet("builderr", 1)
+		ret.Detail = firstLine(err.Error())
+		return []interface{}{EvReset{Ev: "reset", Sid: h.Hid, Scn: Scenario{Sid: h.Hid, Mode: "call", Family: h.Family}}, ret}
+	}
+	var targets, convs []*am.Func
+	for _, t := range h.Targets {
+		f, err := env.Build(0, t)
+		if err != nil {
+			return fail(err)
+		}
+		targets = append(targets, f)
+	}
+	for i, c := range h.Convs {
+		f, err := env.Build(i+1, c)
+		if err != nil {
+			return fail(err)
+		}
+		convs = append(convs, f)
+	}
+	first := true
+	for k, st := range h.Steps {
+		if st.Op == "skip" { // a Redefine step left out of a twin history; the phase numbers stay
+			continue
+		}
+		s := Scenario{TwinOf: h.TwinOf, Sid: h.Hid, Mode: st.Op, Target: h.Targets[st.Target-1], Convs: h.Convs, Family: h.Family,
+			HasFilter: st.HasFilter, FilterIn: st.FilterIn, FilterOut: st.FilterOut,
+			Phase0: 2*k + 1, Carry: !first, NoFollowUp: !st.FollowUp}
+		first = false
+		b := &Built{Env: env, Target: targets[st.Target-1], Convs: convs}
+		for _, j := range st.Inputs {
+			s.Inputs = append(s.Inputs, h.Inputs[j-1])
+			s.ITok = append(s.ITok, toks[j-1])
+			b.ValArgs = append(b.ValArgs, apiArg(h.Inputs[j-1], vals[j-1], r.Intn(6)))
+		}
+		if st.Op == "convert" {
+			l := h.Targets[st.Target-1].In[0]
+			s.Target = FuncSpec{In: []Label{l}, Out: []Label{l}, Form: "pos"}
+		}
+		s.Normalize()
+		b.S = s
+		if len(convs) > 0 {
+			b.CnvArgs = []am.Arg{am.ConverterFunc(convs...)}
+		}
+		env.emit(EvReset{Ev: "reset", Sid: h.Hid, Rep: k, Scn: s})
+		b.Execute(r)
+	}
+	return env.Events
 }
